@@ -386,7 +386,8 @@ def container_ops(self_move=False, node_forms=True):
         st.tuples(st.just("mcopy"), cref, cref, dpath, st.booleans(), st.booleans(),
                   st.sampled_from(["str", "str", "node_src", "group_dst", "group_dst_name"] if node_forms else ["str"])),
         st.tuples(st.just("move"), cref, cref, dpath))
-    return st.one_of(data, data, meta, meta, meta, cpmv, bnd, *extra)
+    gcn = st.tuples(st.just("gcopy_nometa"), cref, fresh)
+    return st.one_of(data, data, meta, meta, meta, cpmv, cpmv, gcn, bnd, *extra)
 
 
 def chistories(min_ops=6, max_ops=25, **kw):
@@ -633,6 +634,23 @@ class CSession:
                     self.classes.add("group_copy_without_meta")
                 if form != "str":
                     self.classes.add("copy_node_forms")
+        elif kind == "gcopy_nometa":
+            # copy of a GROUP that has annotated strict descendants, without metadata, to a fresh name
+            cands = sorted({("/" + "/".join(split(p)[:i])) for p in m.meta for i in range(1, len(split(p)))})
+            cands = [c for c in cands if tree.lookup(c) is not None and tree.lookup(c).kind == "g"]
+            if not cands:
+                return
+            src_abs = cands[op[1] % len(cands)]
+            dst_abs = "/" + op[2]
+            if tree.lookup(dst_abs) is not None or any(s_.startswith(PREF) for s_ in split(dst_abs)):
+                return
+
+            def fm(model):
+                model.tree.copy(src_abs, dst_abs, False)
+
+            if self.run_all(lambda ti, t: t.mc.copy(src_abs, dst_abs, without_meta=True), fm, "copy", dict(src=src_abs, dst=dst_abs, without_meta=True)):
+                self.classes.add("group_copy_without_meta")
+                self.classes.add("copy_without_meta")
         elif kind == "selfmove":
             p = self._node_target(op[1])
             if p == "/":
